@@ -187,6 +187,15 @@ def rule_order(run, F, cfg):
         # all conversion loops precede the append
         loops = [b for b, t in f.calls(r"Iterator::for_each$")]
         ok = ok and bool(loops) and all(f.dominates(lb, ab) and lb not in reach for lb in loops)
+    # the step that puts the ignore-previous-rules entries behind the others is taken on EVERY way to an Ok result (not
+    # only when some remembered flag says the set has exceptions: a flag is only as good as every place that must set it)
+    oks = [b for b, i, st in f.statements() if st["k"] == "assign" and st["rv"]["k"] == "agg"
+           and str(st["rv"].get("adt", "")).endswith("Result") and st["rv"].get("variant") == "Ok"]
+    uncond = len(app) == 1 and bool(oks) and all(f.dominates(app[0][0], b) for b in oks)
+    run.ob("C20.4.ordering", "separation-unconditional", uncond,
+           "every Ok result of into_content_blocking is reached through the step that moves the ignore-previous-rules "
+           f"entries behind all other entries ({len(oks)} Ok constructions, {len(app)} append steps)",
+           site=f.loc(app[0][0]) if app else f.loc(0), config=cfg)
     run.ob("C20.4.ordering", "ignore-previous-last", ok,
            "other_rules.append(&mut ignore_previous_rules) runs after both conversion loops, and the only rule "
            f"pushed afterwards is ignore_previous_fp_documents() (late pushes: {[v[:50] for v in late]})",
